@@ -82,7 +82,8 @@ pub fn run(ctx: &Ctx, reg: &Registry) -> i32 {
                                     }
                                 }
                                 for c in observed_calls(&run) {
-                                    if c.name.starts_with("missing_") && c.loc.as_ref().map_or(false, |l| l.is_empty()) && obj.iter().any(|(k, _)| *k == c.arg) {
+                                    // (a field whose key is the enum's tag is absent by construction: the tag entry is taken out first)
+                                    if c.name.starts_with("missing_") && c.loc.as_ref().map_or(false, |l| l.is_empty()) && obj.iter().any(|(k, _)| *k == c.arg) && body.tag.as_ref().map_or(true, |t| t.0 != c.arg) {
                                         bad = Some(format!("the missing_field_error function was called for {:?} although the object has that key", c.arg));
                                     }
                                 }
